@@ -7,6 +7,7 @@ import (
 	"strconv"
 	"strings"
 	"sync"
+	"time"
 
 	"verif/internal/mon"
 )
@@ -135,6 +136,7 @@ var (
 	lastSnap *snapshot
 	dumpBuf  = make([]byte, 4<<20)
 	dumps    int64
+	dumpNs   int64
 )
 
 // takeSnapshot returns a snapshot taken after the moment `after` (a mon.Seq stamp); concurrent requesters share one dump.
@@ -145,12 +147,14 @@ func takeSnapshot(after int64) *snapshot {
 		return lastSnap
 	}
 	start := mon.Seq()
+	t0 := time.Now()
 	for {
 		n := runtime.Stack(dumpBuf, true)
 		if n < len(dumpBuf) {
 			s := &snapshot{seq: start, gs: parseDump(dumpBuf[:n])}
 			lastSnap = s
 			dumps++
+			dumpNs += int64(time.Since(t0))
 			return s
 		}
 		dumpBuf = make([]byte, 2*len(dumpBuf))
